@@ -44,7 +44,7 @@ Definition sign_encrypt (m : sec_mode) (asym : bool) (A : algo) (hl : Z) (b : by
         if encrypts m asym then
           if a_plain A =? 0 then None                               (* integer divide by zero *)
           else
-            let extra := a_rsig A >? 256 in
+            let extra := go_sendExtraPadding (a_sig A) (a_rsig A) in   (* Gen.ChunkPreds: which length the sender tests *)
             let pb := if extra then 2 else 1 in
             let rem := Z.rem (zlen b - hl + a_sig A + pb) (a_plain A) in
             let pl := if rem =? 0 then 0 else a_plain A - rem in
@@ -101,12 +101,12 @@ Definition verify_decrypt (m : sec_mode) (pnone asym : bool) (A : algo) (hl : Z)
         else
           let padlen :=
             if encrypts m asym then
-              let psb := if a_sig A >? 256 then 2 else 1 in
+              let psb := if go_recvExtraPadding (a_sig A) (a_rsig A) then 2 else 1 in
               if zlen msg <? hl + psb then Err ESecurityChecks
               else if zlen msg <? psb then Panic                    (* messageToVerify[len-1], [len-2] (hl < 0 only) *)
               else
                 let last := zb (znth (zlen msg - 1) msg) in
-                if a_sig A >? 256 then Ok (last * 256 + zb (znth (zlen msg - 2) msg) + 1 + 1)
+                if go_recvExtraPadding (a_sig A) (a_rsig A) then Ok (last * 256 + zb (znth (zlen msg - 2) msg) + 1 + 1)
                 else Ok (last + 1)
             else Ok 0 in
           match padlen with
